@@ -5,6 +5,7 @@ CONSTANTS
   MaxWrite = 2
   MaxMsg = 1
   MaxTotal = 4
+  MaxClose = 4
   Bufs = {1, 2}
 INIT Init
 NEXT Next
